@@ -202,9 +202,45 @@ def scripts2(maxlen=3):
     return out
 
 
+def event_tags(x, acc):
+    if isinstance(x, dict):
+        if x.get("op") == "emit" or x.get("k") == "event":
+            acc.append(x["tag"])
+        if "sink" in x:
+            acc.append(x["sink"]["tag"])
+        for v in x.values():
+            event_tags(v, acc)
+    elif isinstance(x, list):
+        for v in x:
+            event_tags(v, acc)
+
+
+def apps1():
+    """small apps: a base program whose first event has a follow-up command (event / notify / request chain)"""
+    bases = cmd1()[:7] + [c for c in cmd1()[7:] if c["k"] in ("then", "all")][::6] + scripts()[:8]
+    follows = [
+        {"k": "event", "id": 901, "tid": 902, "tag": 990, "val": 2},
+        {"k": "notify", "id": 901, "tid": 902, "tag": 991, "val": 2},
+        {"k": "chain", "id": 901, "tid": 902, "root": {"k": "req", "tag": 992, "val": 2}, "stages": [], "sink": {"tag": 993}},
+    ]
+    out = []
+    for b in bases:
+        tags = []
+        event_tags(b, tags)
+        out.append({"progs": [b], "follow": {}})
+        if tags:
+            for f in follows:
+                out.append({"progs": [b, f], "follow": {str(tags[0]): 1}})
+                if len(tags) > 1 and f["k"] == "event":
+                    # a two-level chain: the follow-up's own event has a follow-up too
+                    g = {"k": "notify", "id": 911, "tid": 912, "tag": 995, "val": 3}
+                    out.append({"progs": [b, f, g], "follow": {str(tags[0]): 1, "990": 2}})
+    return out
+
+
 if __name__ == "__main__":
     fam = sys.argv[1]
-    progs = {"cmd1": cmd1, "scripts": scripts, "scripts2": lambda: scripts2(2), "scripts3": lambda: scripts2(3)}[fam]()
+    progs = {"cmd1": cmd1, "scripts": scripts, "scripts2": lambda: scripts2(2), "scripts3": lambda: scripts2(3), "apps1": apps1}[fam]()
     if len(sys.argv) > 2:
         lo, hi = map(int, sys.argv[2].split(":"))
         progs = progs[lo:hi]
